@@ -83,3 +83,47 @@ Theorem C03_tracker_from_source : forall st o,
   Proofs.TrackerIRTie.run_generated st o = Some (Model.Tracker.tstep st o).
 Proof. exact Proofs.TrackerIRTie.tracker_from_source. Qed.
 Print Assumptions C03_tracker_from_source.
+
+(* ---------- what the methods of the shared map DO, read from the source ----------
+   Gen/SyncMapProg.v is REGENERATED on every run from the bodies of the GenericSyncMap methods
+   (internal/common/genericsyncmap.go), statement by statement; Model/SyncMapIR.v interprets them over association
+   lists, with Go's unspecified iteration order as an explicit argument.  Each method is exactly one operation of
+   Lib/Assoc.v — the operations the correlator model and its generated programs are written with — for every key,
+   value, map, callback and enumeration order. *)
+From Coq Require Import String.
+From AM Require Import Lib.Assoc Model.SyncMapIR Gen.SyncMapProg Proofs.SyncMapIRTie.
+Theorem C03_syncmap_methods_from_source :
+  forall (K V E : Type) (eqb : K -> K -> bool), (forall a b, reflect (a = b) (eqb a b)) ->
+  let run := run_method K V E eqb gen_syncmap_methods in
+  ctor_map K V gen_syncmap_ctor = [] /\
+  (forall k m, run [] [] "Load"%string [VKey k] m = Some (m, [VVal (aget eqb k m); VBool (ahas eqb k m)])) /\
+  (forall k m, run [] [] "Has"%string [VKey k] m = Some (m, [VBool (ahas eqb k m)])) /\
+  (forall k v m, run [] [] "Store"%string [VKey k; VVal (Some v)] m = Some (aset eqb k v m, [])) /\
+  (forall k m, run [] [] "Delete"%string [VKey k] m = Some (adel eqb k m, [])) /\
+  (forall k m, run [] [] "DeleteUnsafe"%string [VKey k] m = Some (adel eqb k m, [])) /\
+  (forall m, run [] [] "Len"%string [] m = Some (m, [VLen (List.length m)])) /\
+  (forall f ord m, run [("cb"%string, iter_cb K V E f)] ord "Iterate"%string [VCb "cb"%string] m =
+                   Some (SyncMapIR.iter K V eqb f ord m, [])) /\
+  (forall f k m, run [("cb"%string, value_cb K V E f)] [] "WithLockedValueDo"%string [VKey k; VCb "cb"%string] m =
+                 Some (match aget eqb k m with
+                       | Some v => let '(m', e) := f v m in (m', [VErr e])
+                       | None => (m, [VErr None])
+                       end)).
+Proof. exact syncmap_methods_from_source. Qed.
+Print Assumptions C03_syncmap_methods_from_source.
+
+(* Go may enumerate a map in any order.  For the two ways the correlator uses Iterate this does not matter beyond
+   what the model already quantifies over: "act on the first entry satisfying c and stop" acts on SOME candidate —
+   the model's scan-choice argument — and every candidate is the one acted upon under some order; "delete every
+   entry satisfying c" removes exactly those entries whatever the order. *)
+Theorem C03_iteration_order_is_the_scan_choice :
+  forall (K V : Type) (eqb : K -> K -> bool), (forall a b, reflect (a = b) (eqb a b)) ->
+  (forall c act ord (m : list (K * V)), NoDup (akeys m) -> incl (akeys m) ord ->
+     exists choice, SyncMapIR.iter K V eqb (scan_cb K V c act) ord m =
+                    match Model.Tracker.pick choice (cands K V c m) with Some (k, v) => act k v m | None => m end) /\
+  (forall c (m : list (K * V)) choice kv, NoDup (akeys m) -> Model.Tracker.pick choice (cands K V c m) = Some kv ->
+     exists ord, Permutation.Permutation ord (akeys m) /\ first_hit K V eqb c ord m = Some kv) /\
+  (forall c ord (m : list (K * V)), NoDup (akeys m) -> incl (akeys m) ord ->
+     SyncMapIR.iter K V eqb (del_cb K V eqb c) ord m = filter (fun kv => negb (c (fst kv) (snd kv))) m).
+Proof. exact iteration_order_is_the_scan_choice. Qed.
+Print Assumptions C03_iteration_order_is_the_scan_choice.
